@@ -676,6 +676,40 @@ theorem subscribe_setup_not_called : ∀ e ∈ Gen.subscribeCallers, e.1 ∉ sub
 /-- the fact lists really speak about the worker loop and the listener's neighbours -/
 theorem subscribe_sites_cover : ∀ n ∈ subscribeWorkerOnly, n ∈ Gen.subscribeReaching := by decide
 
+/-! What crosses the goroutine boundary. An event queued on `mCh` / `acCh` (capacity 100) is read by the worker later -
+after the inserting goroutine has gone on to the next momentums (sync burst, worker busy in `Notify` for a slow client).
+It keeps its content only if nothing the inserting goroutine touches afterwards is reachable from it: the value sent must be
+allocated by the sending function for this one send, and the listener must not keep state of its own on the server.
+(The runtime side: the `subscribe` stream inserts bursts of momentums while a subscriber does not read and compares every
+delivered event with the ledger's momentum.) -/
+
+/-- the functions that run on the inserting goroutine (momentum listener) or on the goroutines of the RPC server (Api) -/
+def subscribeOffWorker : List String :=
+  ["Server.InsertMomentum", "Server.DeleteMomentum", "newAccountBlock", "Api.subscribe", "Api.Momentums",
+   "Api.AllAccountBlocks", "Api.AccountBlocksByAddress", "Api.UnreceivedAccountBlocksByAddress"]
+
+/-- generated fact: every value sent on a channel of the package - the momentum event, the account-block event, the new
+    subscription - is freshly allocated by the sender (composite literal, `make` + `append` to that local, constructor
+    call): no queued event aliases a buffer the sender keeps -/
+theorem subscribe_sends_fresh : ∀ e ∈ Gen.subscribeChanSends, e.2.2 = "fresh" := by decide
+
+/-- generated fact: the sends are the three reviewed hand-overs (listener -> worker twice, Api -> worker) -/
+theorem subscribe_sends_reviewed : Gen.subscribeChanSends.map (fun e => (e.1, e.2.1)) =
+    [("Server.InsertMomentum", "s.mCh"), ("Server.InsertMomentum", "s.acCh"), ("Api.subscribe", "s.installCh")] := by
+  decide
+
+/-- generated fact: no function of the inserting goroutine or of the RPC goroutines assigns to a field (of the server or of
+    anything else): they keep no scratch state between two events -/
+theorem subscribe_off_worker_writes_nothing : ∀ e ∈ Gen.subscribeFieldWrites, e.1 ∉ subscribeOffWorker := by decide
+
+/-- generated fact: whoever assigns to a field is a worker function, a life-cycle function (`Init` / `Start` / `Stop`, called
+    by the node's start-up and shut-down), a constructor filling the options object it has just allocated, or
+    `Subscription.Closed` (called by `Server.broadcast` and `Subscription.Notify`, worker goroutine) -/
+theorem subscribe_field_writers_classified : ∀ e ∈ Gen.subscribeFieldWrites,
+    e.1 ∈ subscribeWorkerOnly ∨ e.1 ∈ ["Server.Init", "Server.Start", "Server.Stop"] ∨
+    e.1 ∈ ["NewBlocksByAddressSubscription", "NewToUnreceivedBlocksSubscription"] ∨
+    e = ("Subscription.Closed", "notifier") := by decide
+
 example : ∃ s, Reachable [] s ∧ s.manager.pooled.length = 2 :=
   ⟨step (step ⟨[], none⟩ (.add { height := 1, hash := [1], prevHash := zeroHash } false))
       (.add { height := 2, hash := [2], prevHash := [1] } false),
